@@ -9,5 +9,6 @@ PROPS = {
     'C10': {'harness': ['harness/C10_state.py']},
     'C11': {'harness': ['harness/C11_dirhash.py']},
     'C15': {'harness': ['harness/C15_share.py']},
+    'C19': {'harness': ['harness/C19_retain.py']},
     'C17': {'harness': ['harness/C17_subst.py']},
 }
